@@ -98,6 +98,8 @@ pub fn check_case(c: &Case, rep: &mut Report) {
     rep.eval();
     let mut p = Profile::default();
     p.selected_protocol = c.selected;
+    // the flags byte of the negotiation response: every combination is a legitimate server
+    p.cc_flags = [0u8, 0x01, 0x03, 0x07, 0x08, 0x0f, 0x17, 0x1f, 0x02, 0xff][(c.nla_seed % 10) as usize];
     let d = Duplex::new(p);
     let mut nr = Rng::new(c.nla_seed);
     let mut nla = gen::nla_cfg(&mut nr, &c.cfg);
